@@ -1,7 +1,7 @@
 """C14 -- see DESIGN.md section 5.  Deductive targets are added below the bounded import."""
 PROP = "C14"
 LEVEL = "other"
-EXPLANATION = 'bounded stand-in: generated tables x styles x widths x indentation x ANSI/plain: rectangle, width bound, column widths, text preservation, render frame'
+EXPLANATION = ('Deductive: Table._get_cell_wrapper hands the cell wrapper exactly the width the terminal leaves after indentation, the vertical border characters and the per-column excess of the cell formats, with the number of columns of the table; two frame obligations decided on the AST: render() and every Table method it reaches assign no attribute of the table and call no mutating method on one (rendering does not modify the table), and the table / cell-wrapper / border modules keep no mutable module- or class-level object (one rendering cannot influence another).  Bounded: generated tables x styles x widths x indentation x ANSI/plain: rectangle, width bound, column widths, text preservation, render frame.')
 from . import io_contracts as ioc  # noqa: F401
 from . import style_contracts as sc
 TARGETS = [sc.GCW]
@@ -14,3 +14,105 @@ try:
         pass
 except ImportError:
     pass
+
+
+def structural():
+    """"rendering does not modify the table": render() and every method of Table it reaches assign no attribute of the table
+    and call no mutating method on one of its attributes (AST scan of the call closure inside the class)"""
+    import ast
+    from pyvc import frontend
+    P = frontend.Program()
+    mi = P.module(sc.M_TBL)
+    ci = mi.classes.get("Table")
+    bad = []
+    reached = []
+    if ci is None or "render" not in ci.methods:
+        bad.append("Table.render missing")
+    else:
+        todo = ["render"]
+        while todo:
+            m = todo.pop()
+            if m in reached or m not in ci.methods:
+                continue
+            reached.append(m)
+            for n in ast.walk(ci.methods[m]):
+                if isinstance(n, ast.Call) and isinstance(n.func, ast.Attribute) and isinstance(n.func.value, ast.Name) \
+                        and n.func.value.id == "self" and n.func.attr in ci.methods:
+                    todo.append(n.func.attr)
+        mutators = {"append", "extend", "insert", "pop", "remove", "clear", "sort", "reverse", "update", "setdefault", "popitem",
+                    "add", "discard", "__setitem__", "__delitem__"}
+
+        def self_attr(x):
+            # self.<a>, self.<a>[...], self.<a>.<b> ... rooted at self
+            while isinstance(x, (ast.Subscript, ast.Attribute)):
+                if isinstance(x, ast.Attribute) and isinstance(x.value, ast.Name) and x.value.id == "self":
+                    return x.attr
+                x = x.value
+            return None
+        for m in reached:
+            for n in ast.walk(ci.methods[m]):
+                tgts = []
+                if isinstance(n, ast.Assign):
+                    tgts = n.targets
+                elif isinstance(n, (ast.AugAssign, ast.AnnAssign)):
+                    tgts = [n.target]
+                elif isinstance(n, ast.Delete):
+                    tgts = n.targets
+                for t in tgts:
+                    for e in (t.elts if isinstance(t, (ast.Tuple, ast.List)) else [t]):
+                        a = self_attr(e)
+                        if a is not None:
+                            bad.append("%s line %d assigns self.%s" % (m, n.lineno, a))
+                if isinstance(n, ast.Call) and isinstance(n.func, ast.Attribute) and n.func.attr in mutators:
+                    a = self_attr(n.func.value)
+                    if a is not None:
+                        bad.append("%s line %d calls %s on self.%s" % (m, n.lineno, n.func.attr, a))
+                if isinstance(n, ast.Call) and isinstance(n.func, ast.Name) and n.func.id in ("setattr", "delattr") and n.args \
+                        and isinstance(n.args[0], ast.Name) and n.args[0].id == "self":
+                    bad.append("%s line %d: %s(self, ...)" % (m, n.lineno, n.func.id))
+    # the modules that lay a table out keep no state of their own between (or during) renderings
+    shared = []
+    nmods = 0
+    for mod in (sc.M_TBL, "clikit.ui.components.cell_wrapper", "clikit.ui.components.border_util"):
+        try:
+            m2 = P.module(mod)
+        except Exception as e:  # noqa
+            shared.append("%s: %r" % (mod, e))
+            continue
+        nmods += 1
+        for node in m2.tree.body:
+            tg = None
+            if isinstance(node, ast.Assign):
+                tg, val = node.targets, node.value
+            elif isinstance(node, ast.AnnAssign) and node.value is not None:
+                tg, val = [node.target], node.value
+            if tg is not None:
+                for x in ast.walk(val):
+                    if isinstance(x, (ast.Call, ast.List, ast.Dict, ast.Set, ast.ListComp, ast.DictComp, ast.SetComp)):
+                        shared.append("%s line %d: module-level object %s" % (mod.rsplit(".", 1)[1], node.lineno, ast.unparse(node)[:50]))
+                        break
+        for x in ast.walk(m2.tree):
+            if isinstance(x, (ast.Global, ast.Nonlocal)):
+                shared.append("%s line %d: %s" % (mod.rsplit(".", 1)[1], x.lineno, ast.unparse(x)))
+        for cname, c2 in m2.classes.items():
+            for name, expr in c2.consts.items():
+                for x in ast.walk(expr):
+                    if isinstance(x, (ast.Call, ast.List, ast.Dict, ast.Set)):
+                        shared.append("%s.%s: class-level object %s" % (cname, name, ast.unparse(expr)[:40]))
+                        break
+            for v in sorted(getattr(c2, "classvars", ())):
+                shared.append("%s.%s is re-assigned through the class" % (cname, v))
+    extra = {
+        "name": "C14.table_modules.frame.no_shared_state", "kind": "frame",
+        "text": "table, cell_wrapper and border_util define no mutable module-level or class-level object and declare no global: "
+                "one rendering cannot influence another (whatever the order or interleaving)",
+        "status": "proved" if not shared else "failed",
+        "note": "; ".join(shared[:6]) if shared else "%d modules scanned" % nmods,
+    }
+    return [extra, {
+        "name": "C14.Table.frame.render_is_read_only", "kind": "frame",
+        "text": "Table.render and the Table methods it reaches (%s) assign no attribute of the table, delete none and call no "
+                "mutating method on one" % ", ".join(reached),
+        "status": "proved" if not bad else "failed",
+        "note": "; ".join(bad[:6]),
+    }]
